@@ -108,10 +108,17 @@ pub fn subjects(rng: &mut Rng) -> Vec<Subject> {
         if v.len() >= 12 {
             break;
         }
-        let kind = *rng.pick(&[faults::Kind::ReservedBlockType, faults::Kind::DistanceBeforeStart, faults::Kind::WrongTrailer, faults::Kind::Dist30]);
+        // only faults that are invalid under BOTH window semantics (a distance reaching before the
+        // stream start is valid on the streaming path, where the window holds zeros)
+        let kind = *rng.pick(&[faults::Kind::ReservedBlockType, faults::Kind::StoredLenMismatch, faults::Kind::WrongTrailer, faults::Kind::Dist30, faults::Kind::OverLit, faults::Kind::LitLen286]);
         if let Some(f) = faults::build(rng, kind, rng.clone().bool()) {
             if f.bytes.len() < 400 {
-                v.push(Subject::from_bytes(f.bytes, f.zlib, Class::Corrupt, format!("corrupt {:?}", kind)));
+                let zeros = vec![0u8; 32768];
+                let inv_ring = matches!(ref_inflate(&f.bytes, Opts::fmt(f.zlib).ring(&zeros, 0)).verdict, Verdict::Invalid { .. });
+                let inv_flat = matches!(ref_inflate(&f.bytes, Opts::fmt(f.zlib)).verdict, Verdict::Invalid { .. });
+                if inv_ring && inv_flat {
+                    v.push(Subject::from_bytes(f.bytes, f.zlib, Class::Corrupt, format!("corrupt {:?}", kind)));
+                }
             }
         }
     }
